@@ -287,6 +287,8 @@ class BytesBase64Provider(_Base64DumperMixin, _Base64JSONSchemaMixin, MorphingPr
                 encoded = data.encode("ascii")
             except AttributeError:
                 raise TypeLoadError(str, data)
+            except UnicodeEncodeError:
+                raise ValueLoadError("Bad base64 string", data)
 
             if not B64_PATTERN.fullmatch(encoded):
                 raise ValueLoadError("Bad base64 string", data)
@@ -441,6 +443,8 @@ def int_lax_coercion_loader(data):
         if e_str.startswith("invalid literal"):
             raise ValueLoadError("Bad string format", data)
         raise ValueLoadError(e_str, data)
+    except OverflowError as e:
+        raise ValueLoadError(str(e), data)
     except TypeError:
         raise TypeLoadError(Union[int, float, str], data)
 
@@ -456,7 +460,10 @@ INT_PROVIDER = ScalarProvider(
 
 def float_strict_coercion_loader(data):
     if type(data) in (float, int):
-        return float(data)
+        try:
+            return float(data)
+        except OverflowError as e:
+            raise ValueLoadError(str(e), data)
     raise TypeLoadError(Union[float, int], data)
 
 
@@ -468,6 +475,8 @@ def float_lax_coercion_loader(data):
         if e_str.startswith("could not convert string"):
             raise ValueLoadError("Bad string format", data)
         raise ValueLoadError(e_str, data)
+    except OverflowError as e:
+        raise ValueLoadError(str(e), data)
     except TypeError:
         raise TypeLoadError(Union[int, float, str], data)
 
@@ -548,6 +557,8 @@ def fraction_strict_coercion_loader(data):
             return Fraction(data)
         except ValueError:
             raise ValueLoadError("Bad string format", data)
+        except ZeroDivisionError:
+            raise ValueLoadError("Denominator must not be zero", data)
     raise TypeLoadError(Union[str, Fraction], data)
 
 
@@ -560,6 +571,10 @@ def fraction_lax_coercion_loader(data):
         str_e = str(e)
         if str_e.startswith("Invalid literal"):
             raise ValueLoadError("Bad string format", data)
+        raise ValueLoadError(str(e), data)
+    except ZeroDivisionError:
+        raise ValueLoadError("Denominator must not be zero", data)
+    except OverflowError as e:
         raise ValueLoadError(str(e), data)
 
 
@@ -588,6 +603,8 @@ def complex_lax_coercion_loader(data):
         raise TypeLoadError(Union[str, complex], data)
     except ValueError:
         raise ValueLoadError("Bad string format", data)
+    except OverflowError as e:
+        raise ValueLoadError(str(e), data)
 
 
 COMPLEX_PROVIDER = ScalarProvider(
